@@ -471,7 +471,14 @@ def check_history(case, ctx):
                     esutil.io.write(fname, arg, **kw)
                 else:
                     hk = {"delim": form["delim"]} if text else {}
-                    handle = sfile.SFile(fname, "w", **hk)
+                    if op["chunk"]["seed"] % 2:
+                        # the SFile object wrote (and closed) another file before and is re-pointed with open()
+                        handle = sfile.SFile(ctx.tmpfile("decoy.rec"), "w")
+                        handle.write(np.zeros(2, dtype=[("q", "i4")]), header={"decoy": True})
+                        handle.close()
+                        handle.open(fname, "w", **hk)
+                    else:
+                        handle = sfile.SFile(fname, "w", **hk)
                     handle.write(arg, **({"header": hdr} if hdr is not None else {}))
                 m.reset(form, hdr, chunk)
             elif kind == "append":
